@@ -247,13 +247,16 @@ class Callee:
 
 
 class Term:
-    __slots__ = ("k", "j", "bb", "span", "func", "args", "dest", "target", "unwind", "callee", "discr", "targets", "otherwise", "place", "cond")
+    __slots__ = ("k", "j", "bb", "span", "at", "func", "args", "dest", "target", "unwind", "callee", "discr", "targets", "otherwise", "place", "cond")
 
     def __init__(self, j, bb):
         self.k = j["k"]
         self.j = j
         self.bb = bb
         self.span = j.get("span")
+        # position at which the terminator takes effect in the (outermost) host function: the call site
+        # when the block was spliced in by sa/inline.py, else its own span
+        self.at = j.get("inlined_at") or self.span
         self.func = self.callee = self.dest = self.discr = self.place = self.cond = None
         self.args = []
         self.targets = []
@@ -529,8 +532,10 @@ class Body:
             self._cd = cd
         return self._cd
 
-    def transitive_control_deps(self, b):
-        """all (switch_block, succ) pairs b transitively depends on"""
+    def transitive_control_deps(self, b, _stack=()):
+        """all (switch_block, succ) pairs b transitively depends on; a switch on a named boolean
+        contributes what its value implies (see implied_edges), including synthetic atoms
+        (("def", bb, idx), "T"|"F") that Flow.atom() knows how to describe"""
         cd = self.control_deps()
         out = set()
         work = [b]
@@ -546,7 +551,153 @@ class Body:
                     work.append(a)
         # loop-carried artefacts: an edge (a -> s) controls b only if b can be reached from s
         # without going through a again (otherwise it is the *other* outcome of an earlier iteration)
-        return {(a, s) for (a, s) in out if s == b or b in self.reachable_from(s, avoid=(a,))}
+        out = {(a, s) for (a, s) in out if s == b or b in self.reachable_from(s, avoid=(a,))}
+        extra = set()
+        for (a, s) in out:
+            extra |= self.implied_edges(a, s, _stack)
+        return out | extra
+
+    # ---- named booleans: `let c = a && b; ... if c {..}` keeps the tests of a and b away from the
+    # branch they decide.  Two helpers make the analyses see through that:
+    #  * reach_avoiding_edges: reachability that tracks the constant value of bool locals along a path
+    #    (so deleting the edge `a is true` really cuts off the `c is true` branch);
+    #  * implied_edges: the (switch, successor) pairs that must have been taken when a bool local has
+    #    a given value at a switch, plus a synthetic atom for the definition that is not a constant.
+    def _bool_locals(self):
+        if getattr(self, "_bl", None) is None:
+            self._bl = {l["i"] for l in self.locals if l["ty"] == "bool"}
+        return self._bl
+
+    def reach_avoiding_edges(self, edges, start=0):
+        edges = set(edges)
+        bl = self._bool_locals()
+        seen_states = set()
+        seen = set()
+        st = [(start, frozenset())]
+        n = 0
+        while st:
+            x, env = st.pop()
+            if (x, env) in seen_states:
+                continue
+            n += 1
+            if n > 200000:
+                # give up on precision: plain reachability
+                return self._plain_reach_avoiding(edges, start)
+            seen_states.add((x, env))
+            seen.add(x)
+            e = dict(env)
+            blk = self.blocks[x]
+            for s_ in blk.stmts:
+                if s_.k != "assign" or s_.lhs.proj:
+                    if s_.k == "assign" and s_.lhs.local in e and not s_.lhs.has_deref():
+                        e.pop(s_.lhs.local, None)
+                    continue
+                l = s_.lhs.local
+                if l not in bl:
+                    continue
+                rv = s_.rv
+                v = None
+                if rv.k == "use":
+                    o = rv.ops[0]
+                    if o.is_const():
+                        ci = o.const_int()
+                        if ci in (0, 1):
+                            v = bool(ci)
+                    elif o.place is not None and not o.place.proj and o.place.local in e:
+                        v = e[o.place.local]
+                elif rv.k == "unop" and rv.j["op"] == "Not":
+                    o = rv.ops[0]
+                    if o.place is not None and not o.place.proj and o.place.local in e:
+                        v = not e[o.place.local]
+                if v is None:
+                    e.pop(l, None)
+                else:
+                    e[l] = v
+            t = blk.term
+            if t.k == "call" and not t.dest.proj:
+                e.pop(t.dest.local, None)
+            succs = self.succ(x)
+            if t.k == "switch" and t.discr.place is not None and not t.discr.place.proj and t.discr.place.local in e:
+                val = 1 if e[t.discr.place.local] else 0
+                tgt = dict(t.targets).get(val, t.otherwise)
+                succs = [y for y in succs if y == tgt]
+            env2 = frozenset(e.items())
+            for y in succs:
+                if (x, y) in edges:
+                    continue
+                st.append((y, env2))
+        return seen
+
+    def _plain_reach_avoiding(self, edges, start=0):
+        seen = set()
+        st = [start]
+        while st:
+            x = st.pop()
+            if x in seen:
+                continue
+            seen.add(x)
+            for y in self.succ(x):
+                if (x, y) not in edges:
+                    st.append(y)
+        return seen
+
+    def implied_edges(self, a, s, _stack=()):
+        """(switch, succ) pairs and synthetic (("def", bb, idx), "T"|"F") atoms that must hold when the
+        switch at block `a` on a bool LOCAL with several definitions goes to `s`"""
+        t = self.blocks[a].term
+        if t.k != "switch" or t.discr.place is None or t.discr.place.proj:
+            return set()
+        x = t.discr.place.local
+        if x not in self._bool_locals() or 1 <= x <= self.arg_count:
+            return set()
+        return self._implied_local(x, a, s, _stack)
+
+    def _implied_local(self, x, a, s, _stack):
+        t = self.blocks[a].term
+        vals = {v for v in (0, 1) if dict(t.targets).get(v, t.otherwise) == s}
+        if len(vals) != 1:
+            return set()
+        return self._implied_value(x, bool(vals.pop()), _stack)
+
+    def _implied_value(self, x, v, _stack=()):
+        if x in _stack or len(_stack) > 6:
+            return set()
+        defs = self.assigns_to(x)
+        if not defs:
+            return set()
+        consts = 0
+        cands = []
+        for (bb, d) in defs:
+            rv = getattr(d, "rv", None)
+            if rv is not None and rv.k == "use" and rv.ops[0].is_const() and rv.ops[0].const_int() in (0, 1):
+                consts += 1
+                if bool(rv.ops[0].const_int()) == v:
+                    cands.append((bb, d, True))
+            else:
+                cands.append((bb, d, False))
+        if len(defs) == 1 and not consts:
+            # a plain copy of another bool local / a negation: follow it
+            (bb, d) = defs[0]
+            rv = getattr(d, "rv", None)
+            if rv is not None and rv.k == "use" and rv.ops[0].place is not None and not rv.ops[0].place.proj and rv.ops[0].place.local in self._bool_locals():
+                return self._implied_value(rv.ops[0].place.local, v, _stack + (x,))
+            if rv is not None and rv.k == "unop" and rv.j["op"] == "Not" and rv.ops[0].place is not None and not rv.ops[0].place.proj:
+                return self._implied_value(rv.ops[0].place.local, not v, _stack + (x,))
+            return set()
+        if not consts or not cands:
+            return set()
+        result = None
+        for (bb, d, is_const) in cands:
+            c = set(self.transitive_control_deps(bb, _stack=_stack + (x,)))
+            if not is_const:
+                rv = getattr(d, "rv", None)
+                idx = d.idx if rv is not None else "term"
+                c.add((("def", bb, idx), "T" if v else "F"))
+                # the non-constant definition may itself be a copy of another such local
+                if rv is not None and rv.k == "use" and rv.ops[0].place is not None and not rv.ops[0].place.proj and rv.ops[0].place.local in self._bool_locals():
+                    c |= self._implied_value(rv.ops[0].place.local, v, _stack + (x,))
+            result = c if result is None else (result & c)
+        return result or set()
 
     def fn_values(self):
         """function items used as values in this body (reified fn pointers, fn items passed as arguments)"""
